@@ -151,6 +151,7 @@ func ruleMapRange(c *engine.Context) *report.Rule {
 				// body: only stores of the key into elements of one slice held in cell C
 				var cell ssa.Value
 				var idxPhi *ssa.Phi
+				valueForm := false
 				bodyOK := true
 				why := ""
 				for blk := range loop.Blocks {
@@ -173,8 +174,15 @@ func ruleMapRange(c *engine.Context) *report.Rule {
 							}
 							cl := cellOf(ia.X)
 							if cl == nil {
+								// a local slice value filled in place (defined before the loop)
+								if bx := blockOf(ia.X); bx != nil && !loop.Blocks[bx] {
+									cl = ia.X
+									valueForm = true
+								}
+							}
+							if cl == nil {
 								bodyOK = false
-								why = "key stored into a slice that is not held in a cell"
+								why = "key stored into a slice that is neither held in a cell nor a local slice defined before the loop"
 								continue
 							}
 							if cell != nil && cell != cl {
@@ -236,6 +244,13 @@ func ruleMapRange(c *engine.Context) *report.Rule {
 				}
 				// the slice in the cell was resliced to len(map) before the loop
 				resliceOK := false
+				if valueForm {
+					if sl, ok := cell.(*ssa.Slice); ok && sl.Low == nil && sl.High != nil {
+						if m, ok := lenArg(sl.High); ok && m == rg.X {
+							resliceOK = true
+						}
+					}
+				}
 				for _, blk := range fn.Blocks {
 					for _, x := range blk.Instrs {
 						st, ok := x.(*ssa.Store)
@@ -264,6 +279,30 @@ func ruleMapRange(c *engine.Context) *report.Rule {
 				r.Sample("%s: keys of %s collected into a cell, counter ok=%v, resliced to len(map)=%v, byte-wise sort on every path to return=%v", load.FuncName(fn), rg.X.Name(), counterOK, resliceOK, ok2)
 				if !ok2 {
 					r.Violation(construct+": sort", pos, "the collected keys can reach the caller without an ascending byte-wise sort: %s", reason)
+				}
+				if valueForm {
+					// the sorted local must be what the function hands out: stored into the returned cell
+					handed := false
+					for _, blk := range fn.Blocks {
+						for _, x := range blk.Instrs {
+							if st, ok := x.(*ssa.Store); ok && st.Val == cell {
+								for _, b2 := range fn.Blocks {
+									if ret, ok := b2.Instrs[len(b2.Instrs)-1].(*ssa.Return); ok {
+										for _, rv := range ret.Results {
+											if rv == st.Addr {
+												handed = true
+												cell = st.Addr
+											}
+										}
+									}
+								}
+							}
+						}
+					}
+					r.Oblige(handed)
+					if !handed {
+						r.Violation(construct+": hand-out", pos, "the sorted local key slice is not the one stored into the returned buffer")
+					}
 				}
 				c.Memo("keyaccessor:"+load.FuncName(fn), func() interface{} { return &keyAccessor{fn: fn, rng: rg, cell: cell} })
 			}
